@@ -7,9 +7,98 @@ pub struct Counting;
 static LIVE: AtomicUsize = AtomicUsize::new(0);
 static PEAK: AtomicUsize = AtomicUsize::new(0);
 static ARMED: AtomicBool = AtomicBool::new(false);
+/// a single request above this many bytes while armed ends the process through `oversize`
+/// (0 = off). An allocation the system cannot serve aborts the process and escapes
+/// catch_unwind; this way the request is reported, with the input that caused it, before that.
+static HARD_CAP: AtomicUsize = AtomicUsize::new(0);
+static CUR_PTR: std::sync::atomic::AtomicPtr<u8> = std::sync::atomic::AtomicPtr::new(std::ptr::null_mut());
+static CUR_LEN: AtomicUsize = AtomicUsize::new(0);
+static CUR_TAG: AtomicUsize = AtomicUsize::new(0);
+static WITNESS_PATH: std::sync::OnceLock<std::ffi::CString> = std::sync::OnceLock::new();
+
+pub const OVERSIZE_EXIT_CODE: i32 = 97;
+
+extern "C" {
+    fn open(path: *const std::os::raw::c_char, flags: i32, mode: u32) -> i32;
+    fn write(fd: i32, buf: *const u8, n: usize) -> isize;
+    fn close(fd: i32) -> i32;
+    fn _exit(code: i32) -> !;
+}
+
+/// no allocation, no unwinding: raw file I/O and _exit
+unsafe fn oversize(size: usize) -> ! {
+    ARMED.store(false, Ordering::Relaxed);
+    let mut num = [0u8; 24];
+    let itoa = |mut v: usize, buf: &mut [u8; 24]| -> usize {
+        let mut i = buf.len();
+        if v == 0 {
+            i -= 1;
+            buf[i] = b'0';
+        }
+        while v > 0 {
+            i -= 1;
+            buf[i] = b'0' + (v % 10) as u8;
+            v /= 10;
+        }
+        i
+    };
+    if let Some(path) = WITNESS_PATH.get() {
+        // O_WRONLY | O_CREAT | O_TRUNC
+        let fd = open(path.as_ptr(), 0o1 | 0o100 | 0o1000, 0o644);
+        if fd >= 0 {
+            let p = CUR_PTR.load(Ordering::Relaxed);
+            let n = CUR_LEN.load(Ordering::Relaxed);
+            if !p.is_null() {
+                let mut off = 0usize;
+                while off < n {
+                    let w = write(fd, p.add(off), n - off);
+                    if w <= 0 {
+                        break;
+                    }
+                    off += w as usize;
+                }
+            }
+            close(fd);
+        }
+    }
+    let a = b"ALLOC-ABORT tag=";
+    write(2, a.as_ptr(), a.len());
+    let i = itoa(CUR_TAG.load(Ordering::Relaxed), &mut num);
+    write(2, num.as_ptr().add(i), num.len() - i);
+    let b = b" size=";
+    write(2, b.as_ptr(), b.len());
+    let i = itoa(size, &mut num);
+    write(2, num.as_ptr().add(i), num.len() - i);
+    let c = b" witness=";
+    write(2, c.as_ptr(), c.len());
+    if let Some(path) = WITNESS_PATH.get() {
+        let bytes = path.as_bytes();
+        write(2, bytes.as_ptr(), bytes.len());
+    }
+    write(2, b"\n".as_ptr(), 1);
+    _exit(OVERSIZE_EXIT_CODE)
+}
+
+/// report-and-exit for single requests above `cap` bytes while armed; the witness (the input set
+/// with `set_current`) goes to `witness_path`
+pub fn set_hard_cap(cap: usize, witness_path: &str) {
+    let _ = WITNESS_PATH.set(std::ffi::CString::new(witness_path).expect("path"));
+    HARD_CAP.store(cap, Ordering::Relaxed);
+}
+
+/// the input being processed (must stay alive and unmoved until the next call or `disarm`)
+pub fn set_current(tag: usize, ptr: *const u8, len: usize) {
+    CUR_TAG.store(tag, Ordering::Relaxed);
+    CUR_LEN.store(len, Ordering::Relaxed);
+    CUR_PTR.store(ptr as *mut u8, Ordering::Relaxed);
+}
 
 unsafe impl GlobalAlloc for Counting {
     unsafe fn alloc(&self, layout: Layout) -> *mut u8 {
+        let cap = HARD_CAP.load(Ordering::Relaxed);
+        if cap != 0 && layout.size() > cap && ARMED.load(Ordering::Relaxed) {
+            oversize(layout.size());
+        }
         let p = System.alloc(layout);
         if !p.is_null() {
             let live = LIVE.fetch_add(layout.size(), Ordering::Relaxed) + layout.size();
@@ -24,6 +113,10 @@ unsafe impl GlobalAlloc for Counting {
         LIVE.fetch_sub(layout.size(), Ordering::Relaxed);
     }
     unsafe fn realloc(&self, ptr: *mut u8, layout: Layout, new_size: usize) -> *mut u8 {
+        let cap = HARD_CAP.load(Ordering::Relaxed);
+        if cap != 0 && new_size > cap && ARMED.load(Ordering::Relaxed) {
+            oversize(new_size);
+        }
         let p = System.realloc(ptr, layout, new_size);
         if !p.is_null() {
             if new_size >= layout.size() {
